@@ -81,7 +81,7 @@ def enumerate_cases(tier):
                 c = base(**core)
                 c.update(d)
                 cases.append(("dev1", c))
-        if tier == "thorough":
+        if tier == "thorough" or ci in (1, 3):
             for d1, d2 in itertools.combinations(devs, 2):
                 if set(d1) & set(d2):
                     continue
@@ -182,7 +182,7 @@ def main(tier):
                 "count and reduction; extrapolation mode 2 only for the 'a reported stop is true' half.  distinct = distinct "
                 "(iterations, solution hash) outcomes",
         "samples": [short(cfg) for _, cfg in cases[:2]] + [short(cfg) for _, cfg in cases[-2:]],
-        "bounds": "deviation bound %d; grids 17x32%s" % (2 if tier == "thorough" else 1, ", 33x64" if tier == "thorough" else " (33x64 and anisotropic as deviations)"),
+        "bounds": "deviation bound %s; grids 17x32%s" % ("2" if tier == "thorough" else "1 for all cores, 2 for two of them", ", 33x64" if tier == "thorough" else " (33x64 and anisotropic as deviations)"),
         "exhaustive": True,
     }
     return rep.finish(cov, ["independent residual: own grid copy, freshly selected input functions, own right-hand side, the "
